@@ -36,9 +36,12 @@ class C07(Check):
         "G8": "derivative sums: d<var>dt = sum over the variable's reactions of coefficient * rate (numeric and computed coefficients alike, "
               "accumulated with +), built from every (reaction, variable) stoichiometry entry",
         "G9": "the names returned are the names assigned: derivative sums are assigned to d<variable>dt and the return lists d<variable>dt",
+        "G11": "no constant frozen from a free input: constants resolved once from the model's cache are emitted while free parameters become inputs, so "
+               "the generator must relate the free parameters to the arguments of the computed components (and refuse or re-emit what depends on them); "
+               "a generator that never looks at any `.args` together with the free parameters cannot know which constants went stale",
         "G7": "the four back ends agree on free-parameter handling (removed from the assignments, appended to the signature)",
     }
-    floors = {"G10": 10, "G1": 2, "G2": 1, "G3": 2, "G4": 12, "G5": 2, "G6": 3, "G7": 4, "G8": 2, "G9": 1}
+    floors = {"G10": 10, "G1": 2, "G2": 1, "G3": 2, "G4": 12, "G5": 2, "G6": 3, "G7": 4, "G8": 2, "G9": 1, "G11": 1}
     decided = [
         "generated functions never read a derived quantity / reaction / parameter before it is assigned",
         "template well-formedness at the level of format fields; Python unpacking shape",
@@ -200,6 +203,45 @@ class C07(Check):
             self.holds("G7", MOD, GEN, "free-parameters-not-assigned", pops[0], "free parameters are removed before the parameter assignments are emitted")
         else:
             self.violated("G7", MOD, GEN, "free-parameters-not-assigned", gen, "free parameters are still assigned inside the generated function (shadowing the extra inputs)")
+        # ---- G11: free parameters vs constants resolved from the cache
+        if "free_parameters" in [a.arg for a in gen.args.args + gen.args.kwonlyargs]:
+            cached_consts = [n for n in walk_no_nested(gen) if isinstance(n, ast.Subscript) and "all_parameter_values" in norm(n.value)] or \
+                            [n for n in walk_no_nested(gen) if isinstance(n, ast.Attribute) and n.attr == "all_parameter_values"]
+            tainted = {"free_parameters"}
+            argsy: set[str] = set()
+            for _ in range(4):
+                for x in walk_no_nested(gen):
+                    tgt = val = None
+                    if isinstance(x, ast.Assign) and len(x.targets) == 1 and isinstance(x.targets[0], ast.Name):
+                        tgt, val = x.targets[0].id, x.value
+                    elif isinstance(x, ast.NamedExpr):
+                        tgt, val = x.target.id, x.value
+                    if tgt is None:
+                        continue
+                    if any(isinstance(y, ast.Name) and y.id in tainted for y in ast.walk(val)):
+                        tainted.add(tgt)
+                    if any((isinstance(y, ast.Attribute) and y.attr == "args") or (isinstance(y, ast.Constant) and y.value == "args") or (isinstance(y, ast.Name) and y.id in argsy)
+                           for y in ast.walk(val)):
+                        argsy.add(tgt)
+
+            def mentions(e, names, attr=False):
+                return any((isinstance(y, ast.Name) and y.id in names) or (attr and isinstance(y, ast.Attribute) and y.attr == "args") for y in ast.walk(e))
+
+            relation = None
+            for x in walk_no_nested(gen):
+                tests = [x.test] if isinstance(x, (ast.If, ast.IfExp, ast.While)) else list(x.ifs) if isinstance(x, ast.comprehension) else []
+                for t in tests:
+                    if mentions(t, tainted) and mentions(t, argsy, attr=True):
+                        relation = x
+            if not cached_consts:
+                self.holds("G11", MOD, GEN, "frozen-constants-vs-free-parameters", gen, "no constant is taken from the cache")
+            elif relation is not None:
+                self.holds("G11", MOD, GEN, "frozen-constants-vs-free-parameters", relation, f"`{norm(getattr(relation, 'test', relation))[:60]}` relates the free parameters to component arguments")
+            else:
+                self.violated("G11", MOD, GEN, "frozen-constants-vs-free-parameters", cached_consts[0],
+                              "parameters computed by an initial assignment are emitted as constants resolved at the model's current values, free parameters become inputs, and nothing "
+                              "relates the two: a constant computed from a free parameter keeps the value it had at generation time",
+                              witness="q := InitialAssignment(2*p), free_parameters=['p']: the generated function called with p = 3 uses q = 2.0; the model with p = 3 uses q = 6.0")
         # ---- G6: on every path of one iteration over the sorted order, whatever is emitted was tested against None first
         order_loops = [l for l in body if isinstance(l, ast.For) and any(isinstance(c, ast.Call) and dotted(c.func).split(".")[-1] == "fn_to_sympy" for c in ast.walk(l))]
         if not order_loops:
